@@ -293,6 +293,9 @@ func c16LRStrata() []*gast.Grammar {
 	idle := func() *gast.Expr { return gast.Star(gast.Opt(gast.L("x"))) }
 	return []*gast.Grammar{
 		mk(r("S", gast.S(gast.Ref("List"), gast.NotE(gast.Dot()))), r("List", gast.C(gast.S(gast.Ref("List"), gast.L(","), idle()), idle()))),
+		// a repetition directly over a reference to a left-recursive rule that can match empty
+		mk(r("S", gast.S(gast.Star(gast.Ref("E")), gast.NotE(gast.Dot()))), r("E", gast.C(gast.S(gast.Ref("E"), gast.L("x")), gast.Opt(gast.L("y"))))),
+		mk(r("S", gast.S(gast.L("a"), gast.Plus(gast.S(gast.Ref("E"), gast.Opt(gast.L(";")))), gast.L("b"))), r("E", gast.C(gast.S(gast.Ref("E"), gast.L("x")), gast.Ref("F"))), r("F", gast.C(gast.S(gast.Ref("F"), gast.L("z")), gast.Star(gast.L("y"))))),
 		mk(r("S", gast.Ref("Sum")), r("Sum", gast.C(gast.A(gast.S(gast.Lab("a", gast.Ref("Sum")), gast.L("+"), gast.Lab("b", gast.Cl(&gast.ClassSpec{Ranges: [][2]rune{{'0', '9'}}}))), 1, mon.Spec{}), gast.Cl(&gast.ClassSpec{Ranges: [][2]rune{{'0', '9'}}})))),
 	}
 }
